@@ -237,6 +237,22 @@ func (ss *segmentStack) ensureFullySorted() {
 	}
 }
 
+// hasMergeOperations returns true if any segment of the stack, or of
+// its child collection stacks, holds an unresolved merge operation.
+func (ss *segmentStack) hasMergeOperations() bool {
+	for _, s := range ss.a {
+		if seg, ok := s.(*segment); !ok || seg.totOperationMerge > 0 {
+			return true
+		}
+	}
+	for _, childSegStack := range ss.childSegStacks {
+		if childSegStack.hasMergeOperations() {
+			return true
+		}
+	}
+	return false
+}
+
 func (ss *segmentStack) isEmpty() bool {
 	if len(ss.a) > 0 {
 		return false
